@@ -127,6 +127,10 @@ def sensitivity(args, seed):
             cmd = [os.path.join(VERIF_DIR, "check"), m["property"], "--tier", "quick"]
             if m.get("runs"):
                 cmd += ["--runs", str(m["runs"])]
+            if os.environ.get("VERIF_SENS_WALL"):
+                # a shorter exploration per patch for a regression pass over the whole corpus (most patches show within
+                # seconds); whatever is missed that way is run again with the full quick budget
+                cmd += ["--wall", os.environ["VERIF_SENS_WALL"]]
             r = subprocess.run(cmd, env=env, stdout=subprocess.PIPE, stderr=subprocess.STDOUT, cwd=VERIF_DIR)
             out = r.stdout.decode(errors="replace")
             viol = [l for l in out.splitlines() if l.startswith("VIOLATION")]
